@@ -1,6 +1,6 @@
 (** Protocol operations for C02 (see Lib/Val.v). *)
 From Coq Require Import ZArith List Bool String.
-From Low Require Import Lib.Bits Lib.BitSeq Lib.Val Model.Rank Model.Select Spec.RankSpec Spec.SelectSpec.
+From Low Require Import Lib.Bits Lib.BitSeq Lib.Val Model.Rank Model.Select Spec.RankSpec Spec.SelectSpec Spec.SelectRankSpec.
 Import ListNotations.
 Open Scope string_scope.
 Open Scope Z_scope.
@@ -11,7 +11,7 @@ Definition c02_in_range (ws : list Z) (i : Z) : bool :=
 
 Definition c02_pair (p : Z * Z) : val := VL [VZ (fst p); VZ (snd p)].
 
-Definition ops_C02 : list opdef := [
+Definition ops_C02_base : list opdef := [
   {| op_name := "bitmap.IndexSelect32";
      op_run := fun a => match a with
        | [ws] => match as_zs ws with
@@ -104,3 +104,94 @@ Definition ops_C02 : list opdef := [
            | Some ws, Some i => c02_pair (spec_Select ws i) | _, _ => VBad end
        | _ => VBad end) |}
 ].
+
+(** * widened: the library's select composed with the library's rank (C01's functions), both ways *)
+
+(** domain of "select (rank p)": p inside the bitmap and some 1-bit at or after p *)
+Definition c02_from_in_range (ws : list Z) (p : Z) : bool :=
+  (0 <=? p) && (p <? 64 * zlen ws) && has_one_from ws p.
+
+Definition c02_rank_of_select (sel : option (Z * Z)) (rank : Z -> option (Z * Z)) : val :=
+  match sel with
+  | Some (a, _) => match rank a with Some p => c02_pair p | None => VPanic end
+  | None => VPanic
+  end.
+
+Definition c02_select_of_rank (rank : option (Z * Z)) (sel : Z -> option (Z * Z)) : val :=
+  match rank with
+  | Some (r, _) => match sel r with Some p => c02_pair p | None => VPanic end
+  | None => VPanic
+  end.
+
+Definition ops_C02_widen : list opdef := [
+  (* Rank64(words, IndexRank64(words), a) where (a, _) = Select32(words, IndexSelect32(words), i): must be (i, 1) *)
+  {| op_name := "bitmap.Rank64/Select32";
+     op_run := fun a => match a with
+       | [ws; i] => match as_zs ws, as_z i with
+           | Some ws, Some i =>
+               if c02_in_range ws i then
+                 match IndexSelect32 ws with
+                 | Some sidx => c02_rank_of_select (Select32 ws sidx i) (Rank64 ws (IndexRank64 ws false))
+                 | None => VPanic
+                 end
+               else VBad
+           | _, _ => VBad end
+       | _ => VBad end;
+     op_spec := fun_spec (fun a => match a with
+       | [_; i] => match as_z i with Some i => VL [VZ i; VZ 1] | None => VBad end
+       | _ => VBad end) |};
+  (* Rank128(words, IndexRank128(words), a) where (a, _) = Select32R64(...): must be (i, 1) *)
+  {| op_name := "bitmap.Rank128/Select32R64";
+     op_run := fun a => match a with
+       | [ws; i] => match as_zs ws, as_z i with
+           | Some ws, Some i =>
+               if c02_in_range ws i then
+                 match IndexSelect32R64 ws with
+                 | Some (sidx, ridx) =>
+                     c02_rank_of_select (Select32R64 ws sidx ridx i) (Rank128 ws (IndexRank128 ws))
+                 | None => VPanic
+                 end
+               else VBad
+           | _, _ => VBad end
+       | _ => VBad end;
+     op_spec := fun_spec (fun a => match a with
+       | [_; i] => match as_z i with Some i => VL [VZ i; VZ 1] | None => VBad end
+       | _ => VBad end) |};
+  (* Select32(words, idx, r) where (r, _) = Rank64(words, IndexRank64(words, true), p):
+     must be (first 1-bit at or after p, the 1-bit after it or 64*len) *)
+  {| op_name := "bitmap.Select32/Rank64";
+     op_run := fun a => match a with
+       | [ws; p] => match as_zs ws, as_z p with
+           | Some ws, Some p =>
+               if c02_from_in_range ws p then
+                 match IndexSelect32 ws with
+                 | Some sidx => c02_select_of_rank (Rank64 ws (IndexRank64 ws true) p) (Select32 ws sidx)
+                 | None => VPanic
+                 end
+               else VBad
+           | _, _ => VBad end
+       | _ => VBad end;
+     op_spec := fun_spec (fun a => match a with
+       | [ws; p] => match as_zs ws, as_z p with
+           | Some ws, Some p => c02_pair (spec_SelectFrom ws p) | _, _ => VBad end
+       | _ => VBad end) |};
+  {| op_name := "bitmap.Select32R64/Rank128";
+     op_run := fun a => match a with
+       | [ws; p] => match as_zs ws, as_z p with
+           | Some ws, Some p =>
+               if c02_from_in_range ws p then
+                 match IndexSelect32R64 ws with
+                 | Some (sidx, ridx) =>
+                     c02_select_of_rank (Rank128 ws (IndexRank128 ws) p) (Select32R64 ws sidx ridx)
+                 | None => VPanic
+                 end
+               else VBad
+           | _, _ => VBad end
+       | _ => VBad end;
+     op_spec := fun_spec (fun a => match a with
+       | [ws; p] => match as_zs ws, as_z p with
+           | Some ws, Some p => c02_pair (spec_SelectFrom ws p) | _, _ => VBad end
+       | _ => VBad end) |}
+].
+
+Definition ops_C02 : list opdef := ops_C02_base ++ ops_C02_widen.
